@@ -24,6 +24,14 @@ TRUSTED = ['Lean 4.33 kernel', 'axioms: propext, Classical.choice, Quot.sound', 
 TOL_IRREP = 1e-8
 
 
+def translate(ctx):
+    # nothing is generated for C14; the hook only selects the theorem modules of the tier
+    # (the N = 9, 10 tableau tables are several minutes of kernel evaluation when first built)
+    global THEOREM_FILES
+    THEOREM_FILES = ['NumqiProps/C14.lean'] + ([] if ctx.quick() else ['NumqiProps/C14Thorough.lean'])
+    ctx.extra['theorem_files'] = list(THEOREM_FILES)
+
+
 def guarded(f):
     try:
         return f()
